@@ -85,7 +85,12 @@ def endSig (clause engine : String) (e : Edge) (o : Obj) (p : Pt) : String :=
   let loop := if e.src == e.dst then "selfloop" else "edge"
   let far := if extentDist o p ≤ 16 then "near" else "far"
   let kind := if o.container then "container" else "leaf"
-  let cls := if onMaxIcon tol o p then "icon-max-size" else featureClass e o
+  let perim := if clause == "start-off-source" then e.srcPerim else e.dstPerim
+  let cls :=
+    if onMaxIcon tol o p then "icon-max-size"
+    else if featureClass e o == "shaped" && perim == "near" then "shaped-outline-near"   -- within 8 px of the real outline
+    else if featureClass e o == "shaped" then s!"shaped-{o.shape}"
+    else featureClass e o
   s!"{clause}:{cls}:{loop}:{kind}:{sideOf o p}:{far}:{engine}"
 
 def checkEdges (engine path : String) (os : List Obj) (es : List Edge) : Option Verdict := Id.run do
